@@ -88,6 +88,11 @@ def header(ctx, fb):
                 # a <= file_size where file_size = buf.len()
                 lim = any(o[0] == 'len_of' for o in ob) or has_origin_call(ob, 're:::len$')
                 involves = _root(f, op_local(a)) == vl or any(_root(f, op_local(x)) == vl for x in _call_args(f, a))
+                if fld == 'model_len':
+                    # a length is bounded only together with its offset: (model_offset saturating+ model_len) <= file size
+                    args = _call_args(f, a)
+                    off = _root(f, op_local(ops.get('model_offset')))
+                    involves = has_origin_call(oa, ('re:::saturating_add$', 're:::checked_add$')) and any(_root(f, op_local(x)) == vl for x in args) and any(_root(f, op_local(x)) == off for x in args)
                 wraps = any(o[0] == 'binop' and o[1].startswith('Add') for o in oa)
                 if lim and involves and not wraps:
                     good = True
